@@ -383,6 +383,9 @@ def _run_one(reg, I: Interp, c: Contract, fn, info, case):
     for nm, ty in c.params.items():
         values[nm] = I.fresh(ty, nm)
         path.inputs[nm] = values[nm]
+    if case:
+        for dst, src in case.get("alias", {}).items():
+            values[dst] = values[src]
     fr = Frame(fn, dict(values), fn.__globals__, None)
     I.assume_clauses(c.requires, fr)
     if case:
